@@ -17,7 +17,7 @@ class BuildError(Exception):
 
 
 def repo_path():
-    return os.path.abspath(os.environ.get("VERIF_REPO", "/repo"))
+    return os.path.abspath(os.environ.get("VERIF_REPO") or "/repo")
 
 
 def _key():
